@@ -10,6 +10,9 @@
 //   c06_race     the detector under CONCURRENT callers: T OS threads released together draw the same fresh index
 //                from one generator (real `Generator::generate` -> `UsedSet::use_index`), R rounds; exactly one
 //                draw per round may be accepted
+//   c06_xfault   the REAL `gen_and_distribute` on every follower shard of 2-5 shard worlds with a scripted leader per
+//                helper (fault-free / seed channels closed empty / record delivered to a subset): outcomes per shard,
+//                number of distinct cross-shard streams among a helper's Ok shards, neighbour consistency (b19)
 // (c06_pack lives in hooks/context.rs: PrssIndex128 is visible only inside crate::protocol.)
 use std::collections::HashSet;
 
@@ -463,4 +466,164 @@ fn verif_c06_race() {
         },
         exec_race,
     );
+}
+
+// ---------------------------------------------------------------------------------------------
+// c06_xfault: the REAL `gen_and_distribute` (`helpers::setup_cross_shard_prss`) on every follower shard, with a
+// scripted LEADER per helper.
+//
+//   c06.xfault <seed> <shards> <f1>/<f2>/<f3>
+//     f_i   ok      the leader of helper i runs the real routine too (fault-free)
+//           d:<j,k,..> | d:-   the leader draws its seeds exactly as the routine does (`prss.generate(RecordId::FIRST)`),
+//                   sets its own endpoint up from them, sends the record to the listed follower shards only and
+//                   CLOSES the seed channel of every other shard without a record (`d:-`: closes all of them
+//                   empty -- the leader went away before distributing)
+//   -> H1:<o|e|x per shard>:<distinct> H2:.. H3:.. nb=<ok|bad>
+//        o = Ok, e = Err(.. EndOfStream ..), x = any other Err; <distinct> = number of different cross-shard streams
+//        (first two records of `endpoint.indexed(gate)`) among the helper's Ok shards; nb = every Ok shard of helper
+//        i and every Ok shard of helper i+1 (any two shard indices) agree right-vs-left
+// ---------------------------------------------------------------------------------------------
+mod xfault {
+    use super::*;
+    use crate::{
+        helpers::{ChannelId, TotalRecords},
+        protocol::prss::{Seed, SeededEndpointSetup},
+        sharding::ShardIndex,
+    };
+
+    type Stream = [(u128, u128); 2];
+
+    fn parse_script(s: &str) -> Option<Vec<u32>> {
+        if s == "ok" {
+            return None;
+        }
+        let l = s.strip_prefix("d:").expect("harness: fault script");
+        Some(if l == "-" { vec![] } else { l.split(',').map(|x| x.parse().expect("harness: shard number")).collect() })
+    }
+
+    pub fn exec(req: &str) -> String {
+        let t: Vec<&str> = req.split(' ').collect();
+        assert!(t[0] == "c06.xfault" && t.len() == 4, "harness: unknown request {req}");
+        let seed: u64 = t[1].parse().unwrap();
+        let scripts: Vec<Option<Vec<u32>>> = t[3].split('/').map(parse_script).collect();
+        assert!(scripts.len() == 3, "harness: one script per helper");
+        macro_rules! go {
+            ($n:literal) => {
+                block_on_timeout(60, async move {
+                    let world: TestWorld<WithShards<$n>> = TestWorld::with_shards(TestWorldConfig::default().with_seed(seed));
+                    let g = gate("c06xfault");
+                    let gref = &g;
+                    let wref = &world;
+                    let sref = &scripts;
+                    let per_shard: Vec<[Result<Stream, String>; 3]> = world
+                        .semi_honest(std::iter::empty::<crate::ff::boolean_array::BA64>(), |ctx, _| async move {
+                            let gateway = wref.gateway(ctx.role(), ctx.shard_id());
+                            let h = Role::all().iter().position(|r| *r == ctx.role()).unwrap();
+                            let ep = match (&sref[h], ctx.is_leader()) {
+                                (Some(delivered), true) => {
+                                    // a scripted leader: same draw as the routine, partial / no distribution
+                                    let setup: SeededEndpointSetup = ctx.prss().generate(RecordId::FIRST);
+                                    for shard in ctx.peer_shards() {
+                                        let sender = gateway.get_shard_sender::<(Seed, Seed)>(&ChannelId::new(shard, gref.clone()), TotalRecords::ONE);
+                                        if delivered.contains(&u32::from(shard)) {
+                                            sender.send(RecordId::FIRST, (setup.left_seed().clone(), setup.right_seed().clone())).await.unwrap();
+                                        } else {
+                                            sender.close(RecordId::FIRST).await;
+                                        }
+                                    }
+                                    Ok(setup.setup())
+                                }
+                                _ => setup_cross_shard_prss(gateway, gref, ctx.prss(), ctx.clone()).await,
+                            };
+                            match ep {
+                                Ok(ep) => {
+                                    let p = ep.indexed(gref);
+                                    Ok([p.generate_values(RecordId::FIRST), p.generate_values(RecordId::from(1u32))])
+                                }
+                                Err(e) => Err(format!("{e:?}")),
+                            }
+                        })
+                        .await;
+                    let _ = ShardIndex::FIRST;
+                    let mut out = vec![];
+                    for i in 0..3 {
+                        let mut marks = String::new();
+                        let mut seen: Vec<Stream> = vec![];
+                        for sh in &per_shard {
+                            match &sh[i] {
+                                Ok(v) => {
+                                    marks.push('o');
+                                    if !seen.contains(v) {
+                                        seen.push(*v);
+                                    }
+                                }
+                                Err(e) if e.contains("EndOfStream") => marks.push('e'),
+                                Err(_) => marks.push('x'),
+                            }
+                        }
+                        out.push(format!("H{}:{marks}:{}", i + 1, seen.len()));
+                    }
+                    let mut nb = true;
+                    for i in 0..3 {
+                        for a in per_shard.iter().filter_map(|sh| sh[i].as_ref().ok()) {
+                            for b in per_shard.iter().filter_map(|sh| sh[(i + 1) % 3].as_ref().ok()) {
+                                nb &= (0..2).all(|k| a[k].1 == b[k].0);
+                            }
+                        }
+                    }
+                    format!("{} nb={}", out.join(" "), if nb { "ok" } else { "bad" })
+                })
+            };
+        }
+        let r = match t[2] {
+            "2" => go!(2),
+            "3" => go!(3),
+            "4" => go!(4),
+            "5" => go!(5),
+            n => panic!("harness: unsupported shard count {n}"),
+        };
+        r.unwrap_or_else(|e| e)
+    }
+
+    pub fn generate(rng: &mut Rng, thorough: bool) -> Vec<String> {
+        let mut out = vec![];
+        let seed = |rng: &mut Rng| rng.below(1 << 40);
+        // the leader went away before distributing: on one helper, on every helper
+        for n in [3usize, 2, 4, 5] {
+            out.push(format!("c06.xfault {} {n} d:-/ok/ok", seed(rng)));
+            out.push(format!("c06.xfault {} {n} d:-/d:-/d:-", seed(rng)));
+        }
+        // fault-free through the scripted leader (must be indistinguishable from `ok`) and through the real one
+        for n in [2usize, 3, 5] {
+            let all: Vec<String> = (1..n).map(|j| j.to_string()).collect();
+            out.push(format!("c06.xfault {} {n} d:{}/ok/ok", seed(rng), all.join(",")));
+            out.push(format!("c06.xfault {} {n} ok/ok/ok", seed(rng)));
+        }
+        // the record reaches some followers only
+        out.push(format!("c06.xfault {} 3 d:1/ok/ok", seed(rng)));
+        out.push(format!("c06.xfault {} 3 ok/d:2/ok", seed(rng)));
+        out.push(format!("c06.xfault {} 3 d:2/d:1/d:-", seed(rng)));
+        out.push(format!("c06.xfault {} 4 ok/ok/d:1,3", seed(rng)));
+        out.push(format!("c06.xfault {} 5 d:4/d:1,2,3/d:2", seed(rng)));
+        for _ in 0..(if thorough { 200 } else { 12 }) {
+            let n = 2 + rng.usize_below(4);
+            let scripts: Vec<String> = (0..3)
+                .map(|_| {
+                    if rng.below(3) == 0 {
+                        "ok".to_string()
+                    } else {
+                        let d: Vec<String> = (1..n).filter(|_| rng.bool()).map(|j| j.to_string()).collect();
+                        if d.is_empty() { "d:-".to_string() } else { format!("d:{}", d.join(",")) }
+                    }
+                })
+                .collect();
+            out.push(format!("c06.xfault {} {n} {}", seed(rng), scripts.join("/")));
+        }
+        out
+    }
+}
+
+#[test]
+fn verif_c06_xfault() {
+    run_suite("c06_xfault", xfault::generate, xfault::exec);
 }
